@@ -17,7 +17,7 @@ from migen import Signal, Record
 from migen.fhdl.structure import Cat
 from litex.build.generic_platform import ConstraintManager, Pins, Subsignal, IOStandard, Misc
 
-from checks.c13_common import guarded, MachineryError
+from checks.c13_common import guarded, MachineryError, reset_migen_tracer
 
 T0 = [
     ("clk",    0, Pins("A1"), IOStandard("LVCMOS33")),
@@ -72,6 +72,7 @@ class PlatformModel:
         return dict(part="cm")
 
     def fresh(self):
+        reset_migen_tracer()
         cm = ConstraintManager(T0, [])
         return types.SimpleNamespace(cm=cm, added=list(T0), handed=[], last=None)   # handed: (entry, obj) in grant order
 
